@@ -1,6 +1,6 @@
 (* Uniform executable entry point of the model for the correspondence check:
    run_case tag args = the observable outputs the implementation must produce for the same case. *)
-From DDSV Require Import base.Machine model.View model.Layout model.DecoderSM.
+From DDSV Require Import base.Machine model.View model.Layout model.DecoderSM model.DecodeScript model.Formats gen.GenFormats.
 
 Local Open Scope Z_scope.
 
@@ -124,11 +124,37 @@ Definition run_c08 (a : list Z) : list Z :=
   | _ => [-99]
   end.
 
+(* ---- C06 / C07: [fmt; colour; isrect; W; H; ox; oy; w; h; limit; datalen; fault; start] *)
+Definition NOISE : N := 128.
+Definition out_code (o : outcome) : Z := match o with OOk => 0 | OMem => 1 | OIo => 2 | ORectOOB => 3 end.
+Definition out_eff (e : eff) : list Z :=
+  match e with ESkip n => [1; nz n] | ERead n => [2; nz n] | EAlloc n => [0; nz n] end.
+Definition run_c06 (a : list Z) : list Z :=
+  match a with
+  | [fmt; color; isrect; W; H; ox; oy; w; h; limit; datalen; fault; start] =>
+    match find_fmt fmt_table (zn fmt) with
+    | None => [-97]
+    | Some row =>
+      let fast := existsb (N.eqb (zn color)) (f_fast row) in
+      let rq := if isrect =? 0 then RFull (zn W) (zn H) fast else RRect (zn W) (zn H) (zn ox) (zn oy) (zn w) (zn h) in
+      let rd := mkReader (zn start) (zn datalen) (if fault <? 0 then None else Some (zn fault)) in
+      let st := decode_run (f_pi row) rq (zn limit) rd in
+      let tr := rev (s_trace st) in
+      let big := filter (fun n => NOISE <=? n)%N (allocs tr) in
+      let io := match s_out st with OIo => true | _ => false end in
+      [out_code (s_out st); (if io then -1 else nz (r_pos (s_rd st)) - start)] ++
+      (nz (N.of_nat (length big)) :: map nz big) ++
+      (if io then [-1] else let c := coalesce tr in nz (N.of_nat (length c)) :: flat_map out_eff c)
+    end
+  | _ => [-99]
+  end.
+
 Definition run_case (tag : Z) (args : list Z) : list Z :=
   match tag with
   | 20 => run_c20 args
   | 2 => run_c02 args
   | 8 => run_c08 args
+  | 6 => run_c06 args
   | _ => [-98]
   end.
 
